@@ -5,6 +5,7 @@ import ast
 from typing import Any, Dict, List, Optional
 
 from .. import astutil as A
+from .. import norm as N_
 from .. import cells as K
 from .. import cfg as C
 from ..core import Ctx
@@ -104,7 +105,8 @@ def rule_consume(ctx: Ctx) -> None:
     if not refill:
         # idiom 2: self._tokens = min(<tokens> + <refill>, capacity)
         refill = [s for s in st if isinstance(s.node, ast.Assign) and A.dotted(s.target) == "self._tokens" and isinstance(s.node.value, ast.Call)
-                  and A.call_name(s.node.value) == "min" and any(isinstance(x, ast.BinOp) and isinstance(x.op, ast.Add) for x in s.node.value.args)]
+                  and A.call_name(s.node.value) == "min" and any(isinstance(N_.expand(fn, x), ast.BinOp) and isinstance(N_.expand(fn, x).op, ast.Add)
+                                                                 for x in s.node.value.args)]
         min_form = bool(refill)
     # the raw (possibly negative, fractional) token count must be used: the public 'tokens' property clamps and truncates
     prop = ctx.repo.funcs.get(f"{TB}.tokens")
